@@ -139,7 +139,7 @@ def check_learn(chk, rep, repo):
             rep.ev("L4-scalar", sx, bad is None, f"{name}: {bad}" if bad else "",
                    construct=f"{name} index of the exchange: {show(t)[:80]}")
     # L3 best model
-    loops = [li for li in w.loops.values() if li.kind == "while" and not li.loops]
+    loops = [li for li in w.loops.values() if li.kind in ("while", "for") and not li.loops]
     scans = [bs for li in loops for bs in find_best_scans(w, li)]
     if len(scans) != 1:
         raise AnalysisError(f"SupervisedOPF.learn: expected one best-so-far scan, found {len(scans)}")
@@ -190,18 +190,18 @@ def check_predict_tracking(chk, rep, repo):
     w = model_walk(repo, "SupervisedOPF", "predict")
     fn = w.entry
     G = ("attr", ("self",), "subgraph")
-    scans = [bs for li in w.loops.values() if li.kind == "while" for bs in find_best_scans(w, li)]
+    scans = [bs for li in w.loops.values() if li.kind in ("while", "for") and li.loops for bs in find_best_scans(w, li)]
     if len(scans) != 1:
         raise AnalysisError("SupervisedOPF.predict: best-so-far scan not found")
     bs = scans[0]
     li = bs.loop
-    pos = position_vars(li)
-    if len(pos) != 1:
-        rep.fn("P1-position", fn, "scan position variable", False, f"found {sorted(pos)}")
+    from ..rules_scan import ordered_scan
+    view = ordered_scan(w, bs, [])
+    if any(k == "position" for k, _ in view.problems):
+        rep.fn("P1-position", fn, "scan position variable", False, dict(view.problems)["position"])
         return
-    J = ("phi", li.lid, next(iter(pos)))
     t0 = ("idx", ("attr", G, "idx_nodes"), ("const", 0))
-    nxt = ("idx", ("attr", G, "idx_nodes"), ("bin", "+", *sorted([("const", 1), J], key=repr)))
+    nxt = ("idx", ("attr", G, "idx_nodes"), view.pos)
     conq = {n: v for n, v in bs.companions.items() if v[1] == nxt}
     rep.fn("P1-companion", fn, "the conqueror is recorded in the improving branch (same node as the minimum)",
            len(conq) == 1, f"companions: { {n: show(v[1])[:50] for n, v in bs.companions.items()} }", line=li.line)
@@ -271,10 +271,86 @@ def check_mark_nodes(chk, rep, repo):
     rep.fn("P2-walk", fn, "mark_nodes marks the start node, its ancestors and the root", ok, detail)
 
 
+def _resolve_gen(G, dom, lid, conds):
+    """A comprehension generator over the nodes of G, possibly through a list of selected positions:
+    (node-position term, conditions) or None."""
+    from ..schema import rewrite
+    nodes = ("attr", G, "nodes")
+    if dom == ("call", ("builtin", "enumerate"), (nodes,), ()):
+        return ("iterproj", dom, lid, (0,)), list(conds)
+    if dom[0] == "call" and dom[1] == ("builtin", "range") and len(dom[2]) == 1 and not dom[3] and dom[2][0] in (
+            ("attr", G, "n_nodes"), ("call", ("builtin", "len"), (nodes,), ())):
+        return ("iter", dom, lid), list(conds)
+    if dom[0] == "listcomp" and len(dom[2]) == 1:
+        d2, l2, c2 = dom[2][0][:3]
+        inner = _resolve_gen(G, d2, l2, c2)
+        if inner is None or dom[1] != inner[0]:
+            return None
+        j, cs = inner
+        me = ("iter", dom, lid)
+        return j, cs + [rewrite(c, lambda t: j if t == me else None) for c in conds]
+    return None
+
+
+def _comprehension_filter(G, t):
+    """np.asarray([A[j(, :)] for <nodes of G> if <cond>]) -> (A, canonical row, canonical conds)."""
+    from ..schema import rewrite
+    if not (t[0] == "call" and t[1] in (("mod", "numpy.asarray"), ("mod", "numpy.array")) and len(t[2]) == 1) \
+            and not (t[0] == "alloc" and t[1] in ("numpy.array", "numpy.asarray") and len(t[2]) == 1):
+        return None
+    lc = t[2][0]
+    if lc[0] != "listcomp" or len(lc[2]) != 1:
+        return None
+    dom, lid, conds = lc[2][0][:3]
+    r = _resolve_gen(G, dom, lid, conds)
+    if r is None:
+        return None
+    j, cs = r
+    me = ("iter", dom, lid)
+    J = ("free", "j")
+    canon = lambda x: rewrite(x, lambda u: J if u in (j, me) else None)
+    elem, _ = strip_copy(lc[1])
+    if elem[0] != "idx":
+        return None
+    return elem[1], canon(row_index(elem)), tuple(canon(c) for c in cs)
+
+
 def check_prune(chk, rep, repo):
     w = model_walk(repo, "SupervisedOPF", "prune")
     fn = w.entry
     G = ("attr", ("self",), "subgraph")
+    first = [e for e in w.events if e.kind == "call" and e.name == "predict" and not e.loops]
+    rep.fn("P3-marks-first", fn, "a prediction pass over the validation set precedes the first pruning",
+           len(first) == 1 and first[0].args[:1] == (("param", "X_val"),), "prune must predict X_val to obtain relevance flags")
+    # comprehension form: X_train = np.asarray([X_train[j, :] for j ... if nodes[j] relevant])
+    outers = [li for li in w.loops.values() if li.kind in ("for", "while") and not li.loops
+              and "X_train" in li.carried and "Y_train" in li.carried]
+    if len(outers) == 1:
+        outer = outers[0]
+        cx, cy = outer.carried["X_train"], outer.carried["Y_train"]
+        fx, fy = _comprehension_filter(G, cx[1]), _comprehension_filter(G, cy[1])
+        if fx is not None and fy is not None:
+            J = ("free", "j")
+            nj = ("idx", ("attr", G, "nodes"), J)
+            guard = ("cmp", "!=", *sorted([("K", "IRRELEVANT"), ("attr", nj, "relevant")], key=repr))
+            guard2 = ("cmp", "==", *sorted([("K", "RELEVANT"), ("attr", nj, "relevant")], key=repr))
+            g_ok = fx[2] == fy[2] and fx[2] in ((guard,), (guard2,))
+            rows = fx[1] == J and fy[1] == J and fx[0] == ("phi", outer.lid, "X_train") and fy[0] == ("phi", outer.lid, "Y_train")
+            fits = [e for e in w.events if e.kind == "call" and e.name == "fit"]
+            pre = [e for e in fits if outer.lid not in e.loops]
+            inl = [e for e in fits if outer.lid in e.loops]
+            ok_fit = (len(pre) == 1 and pre[0].args[:2] == (("param", "X_train"), ("param", "Y_train"))
+                      and cx[0] == ("param", "X_train") and cy[0] == ("param", "Y_train")
+                      and len(inl) == 1 and inl[0].args[:2] == (cx[1], cy[1]))
+            detail = ""
+            if not g_ok:
+                detail = "rows are not kept under the node's relevance flag (or features and labels use different tests)"
+            elif not rows:
+                detail = "the row kept is not the row of the node tested (node j <-> row j)"
+            elif not ok_fit:
+                detail = "the arrays that are filtered are not the ones the model was last fitted on (node j <-> row j is lost)"
+            rep.fn("P3-filter", fn, "prune keeps feature row j and label j iff node j is relevant", g_ok and rows and ok_fit, detail)
+            return
     apps = [e for e in w.events if e.kind == "call" and e.name == "append" and e.target[1][0] == "alloc"]
     ok = False
     detail = "expected one X_temp.append(X_train[j, :]) and one Y_temp.append(Y_train[j]) under the relevance test"
@@ -327,9 +403,6 @@ def check_prune(chk, rep, repo):
             if not g_ok:
                 detail = "rows are not kept under the node's relevance flag"
     rep.fn("P3-filter", fn, "prune keeps feature row j and label j iff node j is relevant", ok, detail)
-    first = [e for e in w.events if e.kind == "call" and e.name == "predict" and not e.loops]
-    rep.fn("P3-marks-first", fn, "a prediction pass over the validation set precedes the first pruning",
-           len(first) == 1 and first[0].args[:1] == (("param", "X_val"),), "prune must predict X_val to obtain relevance flags")
 
 
 def check(chk, repo):
